@@ -106,6 +106,13 @@ fn doc(variant: i64, k: usize) -> Map<String, Value> {
                 }
             }
         }
+        4 => {
+            // an element whose identifier starts with '!' and a flattened string that may equal the rest of it
+            let id = format!("!{}", sym::string(LOWER, 1, 1));
+            m.insert("items♭".to_string(), json!([{"_id": id, "v": "x"}, {"_id": "b", "v": "y"}]));
+            m.insert("a_note♭".to_string(), Value::from(sym::string(LOWER, 1, 1)));
+            m.insert("z_note♭".to_string(), Value::from(format!("!{}", sym::string(LOWER, 1, 1))));
+        }
         3 => {
             let sub = |x: String| json!({"bin": x});
             let items = match sym::choose(4) {
